@@ -120,7 +120,7 @@ def _build(d, tag, mode, fmt, names, bands_pkg, seed, perm=None, n_models=None, 
     if dead:
         t[2, 1, :] = 0.0
     if ext_band is not None and n_models >= 3:
-        t[2, ext_band, :] = t[2, ext_band, 0] * np.array([1.0, 1e2, 1e4])          # model 2 is extended in that one band only
+        t[2, ext_band, :] = t[2, ext_band, 0] * np.array([1.0, 1.0, 1e6])          # model 2 is extended in that one band only
     p = list(range(n_models)) if perm is None else list(perm)
     spec = {'fmt': fmt, 'names': [names[i] for i in p], 'bands': bands_pkg, 'apertures': ap, 'tables': t[p], 'logd_step': 0.25}
     return fc.build_package(d, tag, spec), t, ap
